@@ -352,7 +352,8 @@ theorem mapSetItemH_spec (h : Heap) (hw : h.WF) (ents : List Nat) (es : List (St
       ∧ (∀ a, a < h.next → a ∉ F → h'.cell a = h.cell a)
       ∧ (∀ a, a ∈ F → a ∉ F' → h'.cell a = none)
       ∧ (∀ a, h.next ≤ a → a < h'.next → a ∈ F' ∨ h'.cell a = none)
-      ∧ (∀ a, a ∈ F' → a < h'.next) := by
+      ∧ (∀ a, a ∈ F' → a < h'.next)
+      ∧ (∀ a, a ∈ F' → a ∈ F ∨ h.next ≤ a) ∧ h.next ≤ h'.next := by
   have e0 := Ext.alloc h (.str nk) hw
   generalize hh0 : (alloc h (.str nk)).2 = h0 at e0
   have hn0 : h0.next = h.next + 1 := by rw [← hh0]; rfl
@@ -393,7 +394,7 @@ theorem mapSetItemH_spec (h : Heap) (hw : h.WF) (ents : List Nat) (es : List (St
       · omega
       · have := (hrange a hb).1; omega
       · omega)
-    refine ⟨ents ++ [h2.next], h3, F ++ (h.next :: h0.next :: Fn ++ [h2.next]), ?_, ?_, hall.wf, ?_, ?_, ?_, ?_⟩
+    refine ⟨ents ++ [h2.next], h3, F ++ (h.next :: h0.next :: Fn ++ [h2.next]), ?_, ?_, hall.wf, ?_, ?_, ?_, ?_, ?_, hall.le⟩
     · unfold mapSetItemH
       simp only [alloc_fst]
       rw [hh0] 
@@ -422,6 +423,14 @@ theorem mapSetItemH_spec (h : Heap) (hw : h.WF) (ents : List Nat) (es : List (St
       · omega
       · omega
       · have := (hrange a ha).2; omega
+      · omega
+    · intro a ha
+      simp only [List.cons_append, List.mem_append, List.mem_cons, List.mem_singleton, List.not_mem_nil, or_false] at ha
+      rcases ha with ha | ha | ha | ha | ha
+      · exact Or.inl ha
+      · omega
+      · omega
+      · have := (hrange a ha).1; omega
       · omega
   · -- an existing entry
     have hFe : ∀ a, a ∈ Fe → a < h0.next := fun a ha => by have := hF a (hsubF a ha); omega
@@ -482,7 +491,7 @@ theorem mapSetItemH_spec (h : Heap) (hw : h.WF) (ents : List Nat) (es : List (St
           · exact hh'
           · omega
         · omega)
-    refine ⟨ents, h3, F', ?_, ?_, ?_, ?_, ?_, ?_, ?_⟩
+    refine ⟨ents, h3, F', ?_, ?_, ?_, ?_, ?_, ?_, ?_, ?_, by omega⟩
     · unfold mapSetItemH
       simp only [alloc_fst]
       rw [hh0]
@@ -521,6 +530,14 @@ theorem mapSetItemH_spec (h : Heap) (hw : h.WF) (ents : List Nat) (es : List (St
       rcases (hmem' a).mp ha with hh | ⟨hh, _⟩
       · exact hlt2 a hh
       · have := hF a hh; omega
+    · intro a ha
+      rcases (hmem' a).mp ha with hh | ⟨hh, _⟩
+      · rcases hsub2 a hh with h1' | h1'
+        · rcases hsub1 a h1' with h2' | h2'
+          · exact Or.inl (hsubF a h2')
+          · omega
+        · omega
+      · exact Or.inl hh
 
 
 /-! ### cif_map_retrieve_item(…, do_remove) on a whole map -/
